@@ -35,12 +35,38 @@ type Opt struct {
 	Stdin []byte
 	// NoStdin connects stdin to /dev/null instead of a pipe.
 	NoStdin bool
+	// Timeout of the harness watchdog (default 120 s).
+	Timeout time.Duration
+	// MaxOutput caps the captured stdout/stderr (default 64 MiB); more is dropped.
+	MaxOutput int
+}
+
+type capWriter struct {
+	buf bytes.Buffer
+	max int
+}
+
+func (w *capWriter) Write(p []byte) (int, error) {
+	if room := w.max - w.buf.Len(); room > 0 {
+		if len(p) <= room {
+			w.buf.Write(p)
+		} else {
+			w.buf.Write(p[:room])
+		}
+	}
+	return len(p), nil
 }
 
 // Run executes gojq with args.  A 120 s watchdog guards the harness itself;
 // hitting it is reported through TimedOut and is never a verdict.
 func Run(o Opt, args ...string) Result {
-	ctx, cancel := context.WithTimeout(context.Background(), 120*time.Second)
+	if o.Timeout == 0 {
+		o.Timeout = 120 * time.Second
+	}
+	if o.MaxOutput == 0 {
+		o.MaxOutput = 64 << 20
+	}
+	ctx, cancel := context.WithTimeout(context.Background(), o.Timeout)
 	defer cancel()
 	cmd := exec.CommandContext(ctx, Path(), args...)
 	cmd.Env = append([]string{"PATH=/usr/bin:/bin", "HOME=/nonexistent", "LANG=C", "TZ=UTC", "GOTRACEBACK=single"}, o.Env...)
@@ -48,10 +74,10 @@ func Run(o Opt, args ...string) Result {
 	if !o.NoStdin {
 		cmd.Stdin = bytes.NewReader(o.Stdin)
 	}
-	var so, se bytes.Buffer
-	cmd.Stdout, cmd.Stderr = &so, &se
+	so, se := &capWriter{max: o.MaxOutput}, &capWriter{max: o.MaxOutput}
+	cmd.Stdout, cmd.Stderr = so, se
 	err := cmd.Run()
-	r := Result{Stdout: so.String(), Stderr: se.String()}
+	r := Result{Stdout: so.buf.String(), Stderr: se.buf.String()}
 	if ctx.Err() != nil {
 		r.TimedOut = true
 		r.Exit = -1
